@@ -6,8 +6,8 @@ from vf.poly import PolyLower, FIELD_SUMM, SQRT_SUMM
 from vf.params import *
 
 HARNESS = ['root_intrinsics.go', 'root_scalar.go', 'root_element.go', 'root_hidden.go']
-SMUT = ['Add', 'Subtract', 'Multiply', 'Square', 'Invert', 'Set', 'Zero', 'One', 'MinusOne', 'SetUInt64', 'Decode', 'CSelect', 'UnmarshalBinary', 'direct limb assignment']
-EMUT = ['Add', 'Subtract', 'Double', 'Negate', 'Set', 'Identity', 'Base', 'Decode(compressed)', 'Decode(uncompressed)', 'Decode(identity)']
+SMUT = ['Add', 'Subtract', 'Multiply', 'Square', 'Invert', 'Set', 'Zero', 'One', 'MinusOne', 'SetUInt64', 'Decode', 'CSelect', 'UnmarshalBinary', 'direct limb assignment', 'no mutation']
+EMUT = ['Add', 'Subtract', 'Double', 'Negate', 'Set', 'Identity', 'Base', 'Decode(compressed)', 'Decode(uncompressed)', 'Decode(identity)', 'no mutation']
 
 
 def flat(v):
@@ -32,9 +32,14 @@ def run(ck, tier, which=('scalar', 'element')):
     for r in runs:
         kind, m = r.id[:2], int(r.id[2:])
         what = ('Scalar.' + SMUT[m]) if kind == 'hs' else ('Element.' + EMUT[m])
-        pairs = ['bits', 'enc', 'isz', 'eq', 'le'] if kind == 'hs' else ['enc', 'unc', 'isid', 'eq']
+        pairs = ['bits', 'enc', 'isz', 'isone', 'eq', 'le'] if kind == 'hs' else ['enc', 'unc', 'isid', 'eq']
         rets = [p for p in r.paths if p['end'] == 'return']
         for p in rets:
+            gw = [w for w in p.get('writes', []) if w.get('tag') == 'Global']
+            shared = [nm for nm in pairs if isinstance(p['obs'].get(nm), dict) and p['obs'][nm].get('k') in ('slice', 'str') and p['obs'][nm].get('tag') == 'Global']
+            if not ck.ground('hidden.%s.path%d.pkgstate' % (r.id, p['id']), 'history around %s: no package-level state is written, no package-level storage is handed to the caller' % what, not gw and not shared,
+                             str([(w['label'], w['at']) for w in gw[:2]] + shared)):
+                failures.append((what, 'package-level state: %s' % ([(w['label'], w['at']) for w in gw[:1]] + shared), m, kind))
             for nm in pairs:
                 a, b = flat(p['obs'][nm]), flat(p['obs'][nm + '_fresh'])
                 tag = 'hidden.%s.path%d.%s' % (r.id, p['id'], nm)
@@ -67,3 +72,18 @@ def run(ck, tier, which=('scalar', 'element')):
                 if not ok:
                     failures.append((what, nm, m, kind))
     return failures
+
+
+def embed(ck, tier, which, pid, what):
+    """runs the two-step histories inside another check and replays findings against the real build"""
+    hf = run(ck, tier, which=which)
+    if hf and not ck.violations:
+        seen = sorted({(f_[3], f_[2]) for f_ in hf} | {(f_[3], 14 if f_[3] == 'hs' else 10) for f_ in hf})
+        cases = [{'kind': 'hidden-scalar' if k == 'hs' else 'hidden-element', 'n': m} for (k, m) in seen]
+        path = ck.save_replay({'property': pid, 'cases': cases, 'symbolic_findings': [list(map(str, f_)) for f_ in hf[:8]]})
+        ok, out = core.go_test(path)
+        if not ok and 'MISMATCH' in out:
+            ck.violation('hidden-state', '%s depends on hidden state after %s: %s' % (what, hf[0][0], [l.strip() for l in out.splitlines() if 'MISMATCH' in l][:1]), path)
+        else:
+            ck.inconclusive.append('hidden-state finding %s did not reproduce' % (hf[0],))
+    return hf
